@@ -342,7 +342,7 @@ func drawElem(t *rapid.T, kind int) interface{} {
 		return rapid.Int64().Draw(t, "int")
 	case 2:
 		if rapid.Bool().Draw(t, "fe") {
-			return rapid.SampledFrom([]float64{0, 1, -1, 0.5, -0.5, math.MaxFloat64, -math.MaxFloat64, math.SmallestNonzeroFloat64, -math.SmallestNonzeroFloat64, math.Inf(1), math.Inf(-1), 1e308, 4503599627370497.5}).Draw(t, "fext")
+			return rapid.SampledFrom([]float64{0, math.Copysign(0, -1), 1, -1, 0.5, -0.5, math.MaxFloat64, -math.MaxFloat64, math.SmallestNonzeroFloat64, -math.SmallestNonzeroFloat64, math.Inf(1), math.Inf(-1), 1e308, 4503599627370497.5}).Draw(t, "fext")
 		}
 		f := rapid.Float64().Draw(t, "float")
 		if math.IsNaN(f) {
@@ -440,19 +440,17 @@ func TestMemCmpCodec(t *testing.T) {
 				t.Fatalf("round trip changed component %d of %s: got %#v", i, showTuple(x), dx[i])
 			}
 		}
+		// -0 and 0 are the same number: they compare equal as tuple components, so their
+		// encodings have to be the same bytes and the later components decide the order
 		want := 0
-		zeroSign := false
 		for i := range x {
-			if fx, ok := x[i].(float64); ok && fx == 0 && y[i].(float64) == 0 && math.Signbit(fx) != math.Signbit(y[i].(float64)) {
-				zeroSign = true
-			}
 			if c := cmpElem(x[i], y[i]); c != 0 {
 				want = c
 				break
 			}
 		}
 		got := bytes.Compare(ex, ey)
-		if !zeroSign && (got < 0) != (want < 0) || !zeroSign && (got > 0) != (want > 0) {
+		if (got < 0) != (want < 0) || (got > 0) != (want > 0) {
 			t.Fatalf("order not preserved: %s vs %s compare %d as tuples but their encodings compare %d\n  enc x: %x\n  enc y: %x", showTuple(x), showTuple(y), want, got, ex, ey)
 		}
 		// a tuple that is a proper prefix of another sorts before it
